@@ -259,3 +259,22 @@ theorem perm_set_eraseIdx (xs : List α) (k : Nat) (hk : k < xs.length) (x : α)
   rw [List.set_eq_take_append_cons_drop, if_pos hk, List.eraseIdx_eq_take_drop_succ]
   exact List.perm_middle
 end SpecVerif.C13
+
+namespace SpecVerif.C13
+variable {α κ : Type} [DecidableEq α] [DecidableEq κ]
+/-! ### item equality that is not identity -/
+theorem listEqv_beq : ∀ (xs ys : List α), listEqv (fun a b => a == b) xs ys = (xs == ys)
+  | [], [] => rfl
+  | [], _ :: _ => rfl
+  | _ :: _, [] => rfl
+  | a :: as, b :: bs => by
+    simp only [listEqv, listEqv_beq as bs, List.cons_beq_cons]
+
+theorem findIdx?_congr_mem {p q : α → Bool} : ∀ (xs : List α), (∀ y ∈ xs, p y = q y) →
+    xs.findIdx? p = xs.findIdx? q
+  | [], _ => rfl
+  | a :: as, h => by
+    simp only [List.findIdx?_cons]
+    rw [h a (by simp), findIdx?_congr_mem as (fun y hy => h y (List.mem_cons_of_mem _ hy))]
+
+end SpecVerif.C13
